@@ -22,7 +22,7 @@ META = dict(
               "fixture files of 20 formats (numbers symbolic) and the generated files of the C02 writers, with a "
               "nondeterministic end of file at every line boundary and with one numeric field replaced by a malformed "
               "text (non-numeric, empty, absurdly large count); a cut inside a line (prefix of 1 character, 25 / 50 / 60 / 70 / 80 / 90 % and all but "
-              "the last character; 3 positions for fixtures longer than 30 lines) and one deleted / duplicated / swapped / blanked / commented-out ('# ') line or an inserted blank line, both at 10 line positions spread over the "
+              "the last character; 3 positions for fixtures longer than 30 lines) and one deleted / duplicated / swapped / blanked / commented-out ('# ') line or an inserted blank line, both at 10 line positions (every line of one 6-atom FCHK fixture with partly filled array lines) spread over the "
               "file; one integer field of the first 400 lines (counts first: integers on lines with '=' or alone on a line; 10 fields) replaced by n-2, n+2 or 10n+3; content that is not text (every byte >= 0x80; one "
               "undecodable byte at four offsets) as a real file; explicit and name-derived format selection; when a LoadError gives a line number it equals an "
               "independent count of the lines handed out minus the lines pushed back",
@@ -208,7 +208,7 @@ FIXTURES = [
 ONLY_LINES = {"molden": r"(?!)", "molekel": r"(?!)"}     # regex that matches no line: the fixture stays concrete
 
 
-def h_parser(ctx, fmt="xyz", fn="water_element.xyz", many=False, fault="truncate", max_lines=400, twin=False):
+def h_parser(ctx, fmt="xyz", fn="water_element.xyz", many=False, fault="truncate", max_lines=400, twin=False, line_samples=None):
     import iodata.api as api
     from iodata.utils import FileFormatError, LoadError
     mods = rt._fmt_modules(fmt if fmt not in ("chgcar", "locpot") else "poscar") + (rt._fmt_modules(fmt) if fmt in ("chgcar", "locpot", "extxyz") else [])
@@ -242,6 +242,7 @@ def h_parser(ctx, fmt="xyz", fn="water_element.xyz", many=False, fault="truncate
     real_lit = api.LineIterator
     api.LineIterator = CountingLit          # in both modes (the replay must see the same bookkeeping)
     try:
+        ctx.scratch["line_samples"] = line_samples
         return _h_parser_body(ctx, api, mods, fmt, fn, many, fault, lines, text, explicit, twin, FileFormatError, LoadError)
     finally:
         api.LineIterator = real_lit
@@ -270,7 +271,8 @@ def _h_parser_body(ctx, api, mods, fmt, fn, many, fault, lines, text, explicit, 
             n = len(tl)
             if n == 0:
                 return
-            nsample = 10 if ctx.tier == "quick" else n
+            line_samples = ctx.scratch.get("line_samples")
+            nsample = (line_samples or n) if line_samples is not None else (10 if ctx.tier == "quick" else n)
             idxs = sorted({int(round(i * (n - 1) / max(1, nsample - 1))) for i in range(nsample)}) if n > nsample else list(range(n))
             k = ctx.choice(idxs, label="line")
             if fault == "truncate-inline":
@@ -436,6 +438,10 @@ def jobs(tier):
             out.append(job("C07", f"{fault}[{fmt},{fn}]", M, "h_parser",
                            dict(fmt=fmt, fn=fn, many=many, fault=fault, max_lines=max(ml, 400) if fault == "count" else ml),
                            budget_s=300 if tier == "quick" else 3000, max_validate=3, max_paths=1500))
+    # a file with several per-atom array fields whose last data line is only partly filled (6 atoms): every line mutated
+    out.append(job("C07", "lines[fchk,water_dimer_ghost.fchk,every-line]", M, "h_parser",
+                   dict(fmt="fchk", fn="water_dimer_ghost.fchk", many=False, fault="lines", max_lines=200, line_samples=0),
+                   budget_s=300 if tier == "quick" else 3000, max_validate=3, max_paths=1500))
     out.append(job("C07", "parser[twin]", M, "h_parser", dict(fmt="xyz", fn="water_element.xyz", fault="truncate", twin=True),
                    expect="cex", max_validate=0, max_paths=5))
     return out
